@@ -86,6 +86,30 @@ net('mux-reg', {'a': 2, 'sel': 1, 'q': 2, 'nq': 2, 'd': 2, 'o': 2},
      ('sub', lambda s, W: Sub(s, 'sub', W['d'], W['q'], W['o']))], ['a', 'sel'])
 
 
+class TracedXor(py4hw.Logic):
+    """a stateless gate that also has a clock() hook (statistics only): both propagatable and clockable"""
+    def __init__(self, parent, name, a, b, r):
+        super().__init__(parent, name)
+        self.a = self.addIn('a', a)
+        self.b = self.addIn('b', b)
+        self.r = self.addOut('r', r)
+        self.edges = 0
+
+    def propagate(self):
+        self.r.put(self.a.get() ^ self.b.get())
+
+    def clock(self):
+        self.edges = (self.edges + 1) & 255
+
+
+net('traced-gate', {'a': 2, 'q': 2, 'x': 2, 'y': 2, 'o': 2, 'd': 2},
+    [('n1', lambda s, W: Not(s, 'n1', W['q'], W['x'])),
+     ('tx', lambda s, W: TracedXor(s, 'tx', W['x'], W['a'], W['y'])),
+     ('n2', lambda s, W: Not(s, 'n2', W['y'], W['o'])),
+     ('b1', lambda s, W: Buf(s, 'b1', W['y'], W['d'])),
+     ('reg', lambda s, W: Reg(s, 'reg', W['d'], W['q']))], ['a'])
+
+
 def random_net(seed):
     """seeded acyclic netlist of 4..6 leaves over 2-bit wires (feedback only through a Reg)"""
     rnd = random.Random('net/%d' % seed)
@@ -464,6 +488,15 @@ def cyc_nets():
         else:
             Not(s, 'g2', x, y)
     C['2-cycle'] = two
+
+    def traced_ring(s, cut):
+        a, x, y = s.wire('a', 2), s.wire('x', 2), s.wire('y', 2)
+        TracedXor(s, 'tx', a, y, x)            # a ring closed through a block that has propagate() and clock()
+        if cut:
+            Reg(s, 'r', x, y)
+        else:
+            Not(s, 'g2', x, y)
+    C['ring through a gate with a clock() hook'] = traced_ring
 
     def three(s, cut):
         a, x, y, z = s.wire('a', 1), s.wire('x', 1), s.wire('y', 1), s.wire('z', 1)
